@@ -111,7 +111,7 @@ def run_case(case):
     pres = {(s, g, m): z3.Bool("p_%d_%d_%d" % (s, g, m)) for s in range(S) for g in range(G) for m in range(M)}
 
     def decode(mo):
-        return {"subjects": subj, "groups": groups, "metrics": mets, "perm": perm,
+        return {"subjects": subj, "groups": groups, "metrics": mets, "perm": perm, "pooled": bool(jsonable(z3.Bool("pooled_query_first"), mo)),
                 "cells": {"%d,%d,%d" % k: (jsonable(val[k], mo) if jsonable(pres[k], mo) else None) for k in val}}
     h = H(PROP, case["name"], decode, replay_kind="table", max_witnesses=10)
 
@@ -131,6 +131,11 @@ def run_case(case):
         try:
             st, cell = build(list(range(S)))
             st2, _ = build(perm)
+            if bool(SBool(z3.Bool("pooled_query_first"))):
+                # read-only queries made before the summaries are asked for
+                for mm in mets:
+                    st.get_across_groups(mm)
+                st.get_one_subject(subj[0])
         except EngineSignal:
             raise
         except Exception as e:
@@ -223,6 +228,10 @@ def real_table(case, mode, expect):
         return Panoptica_Statistic([subj[s] for s in order], vd)
     try:
         st, st2 = build(list(range(S))), build(perm)
+        if case.get("pooled"):
+            for m in mets:
+                st.get_across_groups(m)
+            st.get_one_subject(subj[0])
         for gi, g in enumerate(groups):
             for mi, m in enumerate(mets):
                 pv = [cell[(s, gi, mi)] for s in range(S) if cell[(s, gi, mi)] is not None]
